@@ -173,7 +173,7 @@ pub fn generate_and_run(seed: u64, tier: &str, cases_w: &mut dyn Write, impl_w: 
 	}
 
 	let mut id = 0usize;
-	let mut emit = |case: String, res: String, cases_w: &mut dyn Write, impl_w: &mut dyn Write| {
+	let emit = |case: String, res: String, cases_w: &mut dyn Write, impl_w: &mut dyn Write| {
 		writeln!(cases_w, "{case}").unwrap();
 		writeln!(impl_w, "{res}").unwrap();
 	};
